@@ -380,7 +380,14 @@ def r4_nothing_outside_array(ctx):
         R.bad("C02.R4", "%s:direct-write" % fkey(b), "the response to a subscribe entry of a batch is written directly to the connection (outside the array) and again inside the array: RpcService::batch reaches MethodSink::%s(response json) via %s" % (c.name().split("::")[-1], " <- ".join(short(p) for p in path[:7])), where(c), {"path": list(reversed(path))})
 
 
-RULES = [r1_gate_before_work, r2_classifier_agreement, r3_append_discipline, r4_nothing_outside_array]
+
+def rcfg_config_verbatim(ctx):
+    """the configured `batch_requests_config` reaches the ServerConfig unchanged (setter stores its argument, build()/Clone copy it)"""
+    from .common import config_field_integrity
+    config_field_integrity(ctx, "C02.CFG", "batch_requests_config")
+
+
+RULES = [r1_gate_before_work, r2_classifier_agreement, r3_append_discipline, r4_nothing_outside_array, rcfg_config_verbatim]
 
 LEVEL_TEXT = (
     "Structural necessary conditions of batch handling decided from the type-checked program: the gates that must precede "
